@@ -55,6 +55,8 @@ def run_selftest(pids, inplace=False, only=None, keep=False, verbose=True):
                 a = sh(["git", "apply", "--whitespace=nowarn", pf], cwd=repo)
                 if a.returncode != 0:
                     results.append({"pid": pid, "patch": name, "ok": False, "why": "patch does not apply: " + a.stdout[-300:]})
+                    if verbose:
+                        print("selftest %s %-45s STALE (patch does not apply to this tree; rebase it)" % (pid, name), flush=True)
                     continue
                 try:
                     r = sh([os.path.join(VERIF, "check"), pid, "--tier", "quick"], env=env, cwd=VERIF)
